@@ -67,14 +67,33 @@ Proof.
   destruct r as [[]|code| |]; cbn [fst]; try exact H. eapply RV_trans; [exact H|apply IH].
 Qed.
 
+Lemma commit_attempt_R w lr slot dst : RV w (fst (commit_attempt c w lr slot dst)).
+Proof.
+  unfold commit_attempt. destruct (get_block w lr dst) as [b|]; [|apply RV_refl].
+  pose proof (R_sub (v_m w) (bk_mem b) (bk_sm b)) as H1. destruct (sm_sub (v_m w) (bk_mem b) (bk_sm b)) as (m1 & s1). cbn [fst] in H1.
+  assert (H2 : R m1 (fst (fst (if a_persist (get_alloc w (Z.of_nat slot)) then sm_map c m1 (bk_mem b) s1 else (m1, s1, OK tt))))).
+  { destruct (a_persist _); [apply R_map|apply R_refl]. }
+  destruct (if a_persist (get_alloc w (Z.of_nat slot)) then sm_map c m1 (bk_mem b) s1 else (m1, s1, OK tt)) as ((m2 & s2) & mr). cbn [fst] in *.
+  unfold RV. rewrite put_block_m. cbn [v_m set_m]. eapply R_trans; eauto.
+Qed.
+
+Lemma replay_R log : forall w lr, RV w (fst (replay_log c w lr log)).
+Proof.
+  induction log as [|[slot dst|mv] tl IH]; intros w lr; cbn [replay_log]; [apply RV_refl| |].
+  - pose proof (commit_attempt_R w lr slot dst) as H. destruct (commit_attempt c w lr slot dst) as (w1 & r). cbn [fst] in H.
+    destruct r as [[]|code| |]; cbn [fst]; try exact H; (eapply RV_trans; [exact H|apply IH]).
+  - pose proof (commit_move_R w lr mv) as H. destruct (commit_move c w lr mv) as (w1 & r). cbn [fst] in H.
+    destruct r as [[]|code| |]; cbn [fst]; try exact H. eapply RV_trans; [exact H|apply IH].
+Qed.
+
 Lemma collect_list_R v dc p : RV v (fst (collect_list c v dc p)).
 Proof.
   unfold collect_list. destruct (project v (dc_lr dc)) as [st|]; [|apply RV_refl].
   destruct (get_blist v (dc_lr dc)) as [l|]; [|apply RV_refl].
-  destruct (Defrag.collect_moves st (dc_ctx dc) p) as (cs & wr). destruct wr as [| |why]; [| |apply RV_refl].
-  all: match goal with |- context [commit_moves c ?w ?lr0 ?ms] =>
+  destruct (Defrag.collect_moves_f vam (att_commit c (dc_lr dc)) st (dc_ctx dc) p v) as (((cs & env) & log) & wr). destruct wr as [| |why]; [| |apply RV_refl].
+  all: match goal with |- context [replay_log c ?w ?lr0 ?ms] =>
          assert (H1 : RV v w) by (apply RV_eq; apply set_blist_m);
-         pose proof (commit_moves_R ms w lr0) as H2; destruct (commit_moves c w lr0 ms) as (v2 & r); cbn [fst] in H2;
+         pose proof (replay_R ms w lr0) as H2; destruct (replay_log c w lr0 ms) as (v2 & r); cbn [fst] in H2;
          assert (K2 : RV v v2) by (eapply RV_trans; eauto); destruct r as [[]|code| |]; exact K2 end.
 Qed.
 
